@@ -71,6 +71,11 @@ impl PrivateKey {
     pub(crate) fn from_wif_impl(wif_string: &str) -> Result<PrivateKey, BSVErrors> {
         // 1. Decode from Base58
         let wif_bytes = bs58::decode(wif_string).into_vec()?;
+        // At least the prefix byte and the 4 byte checksum are needed for the slicing below
+        if wif_bytes.len() < 5 {
+            return Err(BSVErrors::FromWIF("WIF is too short".into()));
+        }
+
         let wif_without_checksum = wif_bytes[0..wif_bytes.len() - 4].to_vec();
 
         // 2. Check the Checksum
